@@ -3,7 +3,7 @@ package main
 func init() {
 	register(&propDef{
 		id: "C29", run: runC29, minOblig: 60,
-		explanation: "Decides, for the five key-exchange implementations (dhGroup, ecdh, curve25519sha256, dhGEXSHA, mlkem768WithCurve25519sha256) and both roles, by symbolic execution of every path of Client/Server with the helpers of package ssh executed in place (values are identified by provenance — field of the message decoded from the peer, field of a message this side marshals, result of a named call, big-number expression — never by variable names; Cmp/Sign results, the length of a peer value and the bit length of a received prime are enumerated over finite domains, every other undetermined branch is explored both ways; a fact must hold on EVERY path that can return a nil error): (transcript binding) kexResult.H is the Sum of a hash that received, in order and in the prescribed wire encoding, V_C,V_S,I_C,I_S (the fields of the magics parameter), the host key, [GEX: min,n,max,p,g], the client's ephemeral value, the server's ephemeral value, K — where in Client the client value is the value this side SENT (field of a message that is marshalled and handed to writePacket) and in Server the value RECEIVED, K is mpint (string for ML-KEM) of a secret whose term contains the peer's ephemeral field; writeString/writeInt/binary.Write, a buffer filled by marshalInt/marshalString/PutUint32 and written, and the hand-written 4-byte big-endian length followed by the bytes are recognised as the same encodings; received messages (fields and bytes) are never stored into after decoding; (peer-value validation) DH and GEX: K = Exp(Y, x, p) with Y the peer's field, own value Exp(g, x, p) with the same x and p (GEX: the hashed g, p), and Cmp(Y,1)=1 and Cmp(Y,p-1)=-1 decided, p-1 being Sub(p,1) or the group's pMinus1; diffieHellman itself likewise; the GEX client also for g, for the derived k and bits(p) within [min,max] exactly; ECDH: K = ScalarMult of the two coordinates elliptic.Unmarshal decoded from the peer's field on the exchange's curve, with (0,0) excluded, both coordinates < Params().P and IsOnCurve true decided (also on unmarshalECKey / validateECPublicKey themselves); X25519 and ML-KEM: K derives from X25519 / Decapsulate / Encapsulate(NewEncapsulationKey768) applied to the prescribed slice of the peer's field, their errors decided nil and len(peer value) decided equal to 32 / 1120 / 1216; (authenticity) handshakeTransport.client returns the Client result only when the key parsed from result.HostKey verified (nil) the signature parsed from result.Signature over result.H, the signature format equals underlyingAlgo(negotiated host key algorithm), and hostKeyCallback returned nil for that same key; (group choice) on every successful path of chooseDH the returned prime belongs to a candidate whose size was decided >= MinBits and <= MaxBits, and success without a selection is impossible; (fixed groups) by the same execution of the init functions that store into kexAlgoMap: every *dhGroup stored there has, at the time of the store, p = SetString(RFC prime pinned by digest, 16), pMinus1 = p-1 of that same prime term, g = 2, and the hash its algorithm name prescribes, and all four names are registered. Loops whose continuation is undetermined are followed for 3 (chooseDH: 4) decisions per activation; an execution that exceeds its budget or a function using defer/go/select is reported as undecided. NOT decided: the OpenSSH preference among in-range groups, numeric agreement of H and K, the wire helpers writeString/writeInt/marshalInt/marshalString themselves.",
+		explanation: "Decides, for the five key-exchange implementations (dhGroup, ecdh, curve25519sha256, dhGEXSHA, mlkem768WithCurve25519sha256) and both roles, by symbolic execution of every path of Client/Server with the helpers of package ssh executed in place (values are identified by provenance — field of the message decoded from the peer, field of a message this side marshals, result of a named call, big-number expression — never by variable names; Cmp/Sign results, the length of a peer value and the bit length of a received prime are enumerated over finite domains, every other undetermined branch is explored both ways; a fact must hold on EVERY path that can return a nil error): (transcript binding) kexResult.H is the Sum of a hash that received, in order and in the prescribed wire encoding, V_C,V_S,I_C,I_S (the fields of the magics parameter), the host key, [GEX: min,n,max,p,g], the client's ephemeral value, the server's ephemeral value, K — where in Client the client value is the value this side SENT (field of a message that is marshalled and handed to writePacket) and in Server the value RECEIVED, K is mpint (string for ML-KEM) of a secret whose term contains the peer's ephemeral field; writeString/writeInt/binary.Write, a buffer filled by marshalInt/marshalString/PutUint32 and written, and the hand-written 4-byte big-endian length followed by the bytes are recognised as the same encodings; the hash input is compared as a canonical byte stream, not as a list of Write calls (a buffer tiled by fixed-width fields at constant offsets, an AppendUint32 chain or an array of uint32 is the sequence of its fields; two consecutive parts of one value are that value); received messages (fields and bytes) are never stored into after decoding; (peer-value validation) DH and GEX: K = Exp(Y, x, p) with Y the peer's field, own value Exp(g, x, p) with the same x and p (GEX: the hashed g, p), and Cmp(Y,1)=1 and Cmp(Y,p-1)=-1 decided, p-1 being Sub(p,1) or the group's pMinus1; diffieHellman itself likewise; the GEX client also for g, for the derived k and bits(p) within [min,max] exactly; ECDH: K = ScalarMult of the two coordinates elliptic.Unmarshal decoded from the peer's field on the exchange's curve, with (0,0) excluded, both coordinates < Params().P and IsOnCurve true decided (also on unmarshalECKey / validateECPublicKey themselves); X25519 and ML-KEM: K derives from X25519 / Decapsulate / Encapsulate(NewEncapsulationKey768) applied to the prescribed slice of the peer's field, their errors decided nil and len(peer value) decided equal to 32 / 1120 / 1216; (authenticity) handshakeTransport.client returns the Client result only when the key parsed from result.HostKey verified (nil) the signature parsed from result.Signature over result.H, the signature format equals underlyingAlgo(negotiated host key algorithm), and hostKeyCallback returned nil for that same key; (group choice) on every successful path of chooseDH the returned prime belongs to a candidate whose size was decided >= MinBits and <= MaxBits, and success without a selection is impossible; (fixed groups) by the same execution of the init functions that store into kexAlgoMap: every *dhGroup stored there has, at the time of the store, p = SetString(RFC prime pinned by digest, 16), pMinus1 = p-1 of that same prime term, g = 2, and the hash its algorithm name prescribes, and all four names are registered. Loops whose continuation is undetermined are followed for 3 (chooseDH: 4) decisions per activation; an execution that exceeds its budget or a function using defer/go/select is reported as undecided. NOT decided: the OpenSSH preference among in-range groups, numeric agreement of H and K, the wire helpers writeString/writeInt/marshalInt/marshalString themselves.",
 		assumptions: []string{"math/big Cmp/Sign contracts", "crypto/ecdh, curve25519.X25519 reject low-order points (C11)", "crypto/mlkem contracts", "writeString/writeInt/marshalInt/marshalString/binary.Write encode as their names say"},
 	})
 	tech("C29", "symbolic path execution of the key-exchange functions with in-place execution of same-package helpers (E6/E10/E2 combined): hash-input sequence with provenance terms, finite-domain enumeration of Cmp/len/BitLen outcomes, facts required on every accepting path")
